@@ -22,7 +22,7 @@ NOT_APPLICABLE = {}
 
 # properties whose check has been reviewed, is quiet on the current tree at several seeds and is
 # therefore registered; anything else stays under not_applicable until it is
-READY = ["C01", "C02", "C03", "C04", "C09", "C06", "C07", "C08", "C10", "C11", "C12", "C13", "C14", "C15", "C16", "C17", "C18", "C19", "C20"]
+READY = ["C01", "C02", "C03", "C04", "C05", "C09", "C06", "C07", "C08", "C10", "C11", "C12", "C13", "C14", "C15", "C16", "C17", "C18", "C19", "C20"]
 
 
 def main():
